@@ -92,6 +92,21 @@ class JsonShim:
 
     @staticmethod
     def dumps(obj, *a, **kw):
+        if _has_sym(obj) and kw.get('ensure_ascii') is False:
+            # the caller is going to encode the text: strings that cannot
+            # be encoded (lone surrogates) fail there; fail here instead
+            # (the token returned below does not contain them)
+            def walk(n):
+                if isinstance(n, str):
+                    n.encode('utf-8')
+                elif isinstance(n, dict):
+                    for k, v in n.items():
+                        walk(k)
+                        walk(v)
+                elif isinstance(n, (list, tuple, set)):
+                    for v in n:
+                        walk(v)
+            walk(obj)
         if _has_sym(obj):
             n = len(RESPDOCS) + 1
             RESPDOCS[n] = _jsonable(obj)
